@@ -3,6 +3,7 @@ package main
 import (
 	"fmt"
 	"go/constant"
+	"go/token"
 	"go/types"
 	"strings"
 
@@ -14,6 +15,7 @@ const helperPkg = "filesystem/fshelper"
 func init() {
 	register(&PropDef{ID: "C04", Title: "Streams and cross-filespace copies are byte-exact and replace old content", Rules: rulesC04,
 		Explanation: "Decided (structural necessary conditions): R1 every successful return of memfs.(*Filespace).Writer is reached only after the target file was freshly created or its content reset (a writer never appends to old content, and truncation does not wait for the first Write); R2 the constant flags of the os.OpenFile behind diskfs.(*Filespace).Writer contain a write mode, O_CREATE and O_TRUNC; R3 in fshelper.StreamCopy and Copier.copyFile the error of io.Copy and the error of closing the destination writer are both tested, their failing edges return them, success (or any value that may be nil) is returned only where both are known nil, the result is not overwritten by a deferred function, and reader and writer are closed on every path after they were opened; R4 fshelper.Copy runs the walk, waits, and returns its error list, and its callbacks return the errors of MkdirAll and StreamCopy; R5 the memory stream handle appends exactly the chunk it was given, reports its length, and keeps no reference to it (the encrypted stream writer likewise: C05.R9). " +
+			"Added in round 2: R3 also requires that the destination writer is opened only on the nil edge of the source reader's open (a failed copy does not create or empty the destination); R4 also requires that the per-file callback of fshelper.Copy returns a possibly-nil value only after StreamCopy ran (no 'looks up to date' skip); R6 the walkers of package fsloop look at an entry's name only to recognise '.' and '..' and leave their listing loop early only with a non-nil error (every entry of the source tree is visited); R7 the encrypting stream writer's Close seals, writes and closes the underlying stream and returns each error (same rule as C05.R8). " +
 			"NOT decided: byte equality for all contents, chunkings and buffer sizes; behaviour under injected I/O faults beyond the error-propagation shape.",
 	})
 }
@@ -174,12 +176,16 @@ func ruleStreamCopy(c *Ctx, rule string, f *ssa.Function) {
 					continue // a tested, non-nil error
 				}
 				if !(copyNil && closeNil) {
-					ok, why = false, "a possibly-nil value is returned at " + c.pos(r.Pos()) + " without both errors being established nil"
+					ok, why = false, "a possibly-nil value is returned at "+c.pos(r.Pos())+" without both errors being established nil"
 				}
 			}
 		}
 	}
 	c.Check(ok, rule, "copy discipline of "+name, f.Pos(), "io.Copy's and the writer Close's errors are tested, returned on failure, and both nil on success", why+" — the destination is not a complete copy although the helper reports success")
+	// the destination is opened (created / truncated) only after the source could be opened
+	srcFirst := dominates(readerOpen, writerOpen) && callErrKnownNil(facts, readerOpen, writerOpen.Block())
+	c.Check(srcFirst, rule, "source opened before destination in "+name, writerOpen.Pos(), "the writer is opened on the nil edge of the reader's open",
+		"the destination writer is opened before the source reader is known to be available — a copy whose source is missing fails, but has already created or emptied the destination (behind a cache that empty file is journaled and committed over the remote one)")
 	// closes on every path after open
 	for _, pair := range []struct {
 		open *ssa.Call
@@ -215,46 +221,7 @@ func derefType(t types.Type) types.Type {
 
 func rulesC04(c *Ctx) {
 	// ---- R1 memory writer truncates -------------------------------------------------
-	mw := c.P.Func(memfsPkg, "Filespace", "Writer")
-	if mw == nil {
-		c.Bad("R1", "memfs.(*Filespace).Writer", 0, "anchor not found")
-	} else {
-		isReset := func(in ssa.Instruction) bool {
-			ci := callInfo(in, nil, 0)
-			if ci == nil || ci.Static == nil || ci.Kind != "call" {
-				return false
-			}
-			switch qualName(ci.Static) {
-			case mq(memfsPkg, "", "NewFile"):
-				return true
-			case mq(memfsPkg, "File", "setData"):
-				// with an empty slice
-				os := Origins(ci.Arg(0), FlowOpts{Alias: true})
-				return allOrigins(os, func(o Origin) bool { return o.Kind == "alloc" || o.Kind == "nil" })
-			}
-			return false
-		}
-		exits := RunPaths(mw, nil, 0, func(st int, in ssa.Instruction, d bool) int {
-			if isReset(in) {
-				return 1
-			}
-			return st
-		}, false, nil)
-		bad := ""
-		n := 0
-		for _, e := range exits {
-			r := e.Instr.(*ssa.Return)
-			if isNilConst(resolve(r.Results[0])) {
-				continue // failing return (nil writer)
-			}
-			n++
-			if e.State == 0 {
-				bad = c.pos(r.Pos())
-			}
-		}
-		c.Check(bad == "" && n > 0, "R1", "memfs.(*Filespace).Writer hands out an empty file", mw.Pos(), "every returned writer follows a fresh NewFile or a content reset",
-			"the writer returned at "+bad+" is handed out without the existing content having been reset at open time — a writer over an existing file appends to it, or an empty stream leaves the old content")
-	}
+	ruleMemWriterTruncates(c, "R1")
 
 	// ---- R2 disk writer truncates ---------------------------------------------------------
 	ruleDiskWriterFlags(c, "R2")
@@ -326,6 +293,35 @@ func rulesC04(c *Ctx) {
 				c.Check(okE, "R4", fmt.Sprintf("copy callback returns the error of %s", lastSeg(ci.Name())), ci.Pos(), "returned to the walk", "an error of the per-node copy step is dropped — the destination is incomplete without an error")
 			}
 		}
+		// the per-file callback reports success only after the stream copy ran
+		scName := mq(helperPkg, "", "StreamCopy")
+		for _, g := range cp.AnonFuncs {
+			scs := CallsTo(g, scName)
+			if len(scs) == 0 || errResultIndex(g.Signature) < 0 {
+				continue
+			}
+			n++
+			facts := factsFor(g)
+			bad := ""
+			var pos token.Pos
+			for _, r := range returnsOf(g) {
+				rv := resolve(r.Results[errResultIndex(g.Signature)])
+				if facts.HoldsOnAllEdges(r.Block(), func(fs factSet) bool { return knownNilIn(fs, rv, false) }) {
+					continue // an error return
+				}
+				okR := false
+				for _, sc := range scs {
+					if rv == sc.Value() || dominates(sc.Instr, r) {
+						okR = true
+					}
+				}
+				if !okR {
+					bad, pos = "the per-file callback can return nil without having streamed the file", r.Pos()
+				}
+			}
+			c.Check(bad == "", "R4", "per-file callback of fshelper.Copy copies before it reports success", orPos(pos, g.Pos()), "every possibly-nil return follows StreamCopy",
+				bad+" — a destination file that merely looks current (same size, newer time) keeps its old bytes and the tree copy returns nil")
+		}
 		c.Floor("R4", n, 3)
 	}
 
@@ -361,6 +357,11 @@ func rulesC04(c *Ctx) {
 		c.Floor("R5", ruleWritersCopyChunks(c, "R5", "filesystem/"), 2)
 		c.Check(okApp && okLen, "R5", "memfs.(*FileHandler).Write appends the chunk", hw.Pos(), "data = append(data, p...); returns len(p), nil", "the write handle does not append exactly the given chunk / does not report its length — the file is not the concatenation of the chunks")
 	}
+
+	// ---- R6 the walker behind the tree copy visits every entry --------------------------------------
+	c.Floor("R6", ruleWalkersVisitAll(c, "R6"), 2)
+	// ---- R7 an encrypted destination reports the failure of its underlying stream (same rule as C05.R8) ----
+	c.Floor("R7", ruleEncryptedWriterClose(c, "R7"), 1)
 }
 
 // closesOneOf: the call (or deferred call / deferred function literal) closes
@@ -426,4 +427,51 @@ func closesParamAlways(g *ssa.Function, idx int) bool {
 		return ci != nil && closesOneOf(ci, vals)
 	})
 	return len(bad) == 0
+}
+
+// ruleMemWriterTruncates: every successful return of memfs.(*Filespace).Writer
+// follows a fresh NewFile or a content reset.
+func ruleMemWriterTruncates(c *Ctx, rule string) {
+	// ---- R1 memory writer truncates -------------------------------------------------
+	mw := c.P.Func(memfsPkg, "Filespace", "Writer")
+	if mw == nil {
+		c.Bad(rule, "memfs.(*Filespace).Writer", 0, "anchor not found")
+	} else {
+		isReset := func(in ssa.Instruction) bool {
+			ci := callInfo(in, nil, 0)
+			if ci == nil || ci.Static == nil || ci.Kind != "call" {
+				return false
+			}
+			switch qualName(ci.Static) {
+			case mq(memfsPkg, "", "NewFile"):
+				return true
+			case mq(memfsPkg, "File", "setData"):
+				// with an empty slice
+				os := Origins(ci.Arg(0), FlowOpts{Alias: true})
+				return allOrigins(os, func(o Origin) bool { return o.Kind == "alloc" || o.Kind == "nil" })
+			}
+			return false
+		}
+		exits := RunPaths(mw, nil, 0, func(st int, in ssa.Instruction, d bool) int {
+			if isReset(in) {
+				return 1
+			}
+			return st
+		}, false, nil)
+		bad := ""
+		n := 0
+		for _, e := range exits {
+			r := e.Instr.(*ssa.Return)
+			if isNilConst(resolve(r.Results[0])) {
+				continue // failing return (nil writer)
+			}
+			n++
+			if e.State == 0 {
+				bad = c.pos(r.Pos())
+			}
+		}
+		c.Check(bad == "" && n > 0, rule, "memfs.(*Filespace).Writer hands out an empty file", mw.Pos(), "every returned writer follows a fresh NewFile or a content reset",
+			"the writer returned at "+bad+" is handed out without the existing content having been reset at open time — a writer over an existing file appends to it, or an empty stream leaves the old content")
+	}
+
 }
